@@ -87,6 +87,18 @@ def targeted(ctx, T):
     for nm in ("html", "HTML", "htm", ""):
         for sy in syss:
             out.append(("<!DOCTYPE %s%s><p>a<table>" % (nm, "" if sy is None else " SYSTEM '%s'" % sy), None, False, True))
+    # 8. which tokens an HTML / MathML-text integration point hands to the current insertion mode (start tags, characters AND
+    #    whitespace-only runs), in contexts where that mode does more with them than append text: pending formatting elements
+    #    to reconstruct, table text, select, pre's dropped newline
+    ips = ["<svg><desc>", "<svg><title>", "<svg><foreignObject>", "<math><annotation-xml encoding='text/html'>",
+           "<math><annotation-xml encoding=application/xhtml+xml>", "<math><mi>", "<math><mtext>", "<math><annotation-xml>", "<svg><g>"]
+    inner = ["<p><b></p>", "<table>", "<table><tr>", "<select>", "<p><i><b></p>", "", "<pre>", "<b><p></b>"]
+    after = [" ", "\n", " x", "\t<b>", "x", " <svg>", "<b>", "<mglyph>", "<malignmark>", "</p>", "<!--c-->", "\x00", " \x00", " </b> "]
+    for ip in ips:
+        for inn in inner:
+            for af in after:
+                out.append((ip + inn + af + "y", None, False, True))
+                out.append((ip + inn + af + "y", rng.choice(["div", "svg", "td", "math"]), rng.random() < 0.3, True))
     return out
 
 
